@@ -346,6 +346,44 @@ flagsets("buildtag", "adv/buildtag", ["Watcher"], modes=("",))
 case("buildtag-both", "adv/buildtag", ["Sink", "Watcher"])
 
 
+# ---- witnesses of the repaired defects (D1, D2, D3, D4a, D22): they must stay repaired ----
+FILES["adv/fixed/a.go"] = """package fixed
+
+import (
+	"io"
+
+	"example.com/m/dep/s1"
+)
+
+var Default io.Reader
+
+type Lower[k comparable, v any] interface {
+	Get(key k) (v, bool)
+	Put(key k, val v)
+}
+
+type NumberTwo interface {
+	M(s2 int, _ string, _ string)
+	N(n1, n2 int, _, _ int)
+}
+
+type BodyNames interface {
+	M(mock int, callInfo string) (mockOut int)
+}
+
+type Renamed interface {
+	M(string, string, s1.T, string)
+}
+"""
+case("fixed-lower", "adv/fixed", ["Lower"], skip=True)
+case("fixed-lower-stub", "adv/fixed", ["Lower"], skip=True, stub=True, resets=True, pkg="mocks")
+case("fixed-numbertwo", "adv/fixed", ["NumberTwo"])
+case("fixed-bodynames", "adv/fixed", ["BodyNames"], stub=True)
+case("fixed-renamed", "adv/fixed", ["Renamed"])
+case("fixed-value", "adv/fixed", ["Default"])
+case("fixed-value-k2", "adv/fixed", ["NumberTwo", "Default"])
+
+
 def write_all(root, write):
     for rel, (name, decls) in EXTRA_DEPS.items():
         write(os.path.join(root, rel, "x.go"), "package %s\n\n%s" % (name, decls))
